@@ -12,12 +12,18 @@
                           is the other development's theorem AttacksLegalProofs.legal_pre_post_agree
                           (the view after DoMove is the view of [Rules.make p m]: position
                           refinement, proved elsewhere);
-    - [legal_moves_exact]   hence GenerateLegalMoves with the engine's IsLegalMove is exact. *)
+    - [legal_moves_exact]   hence GenerateLegalMoves with the engine's IsLegalMove is exact;
+    - [perft_exact]         the node count obtained by recursively generating legal moves with the
+                            engine's generator and making them ([perft_gen]) equals the
+                            rule-defined [Rules.perft], for every legal position and depth
+                            (uses MovegenMakeLegal.make_preserves_legal_pos; the successor
+                            position of a move is [Rules.make], which the position refinement
+                            identifies with DoMove). *)
 From Coq Require Import NArith ZArith List Bool Lia ZifyN ZifyBool Permutation.
 From FG Require Import Word64 Geom Tables TablesCorrect ShiftCorrect Rules BitView
                        AttacksImpl AttacksLemmas AttacksProofs AttacksMoves AttacksCheckProofs AttacksLegalProofs
                        MoveEnc SqListFacts MovegenImpl MovegenLemmas MovegenSpec
-                       MovegenProofsOD MovegenProofsPieces MovegenProofsPawns MovegenProofsMain.
+                       MovegenProofsOD MovegenProofsPieces MovegenProofsPawns MovegenProofsMain MovegenMakeLegal.
 Import ListNotations.
 Open Scope N_scope.
 
@@ -100,4 +106,44 @@ Proof.
   apply spec_legal_code_code. apply (pseudo_valid p m); [now apply legal_wfp|exact Hm].
 Qed.
 
+
+(** ** perft *)
+Fixpoint perft_gen (prom_nq : bool) (d : nat) (p : pos) : option N :=
+  match d with
+  | O => Some 1
+  | S k => do l <- gen_legal prom_nq (eng_legal p) (view_of_spec p) 3;
+           fold_right (fun c acc => do a <- perft_gen prom_nq k (make p (decode c)); do s <- acc; Some (a + s))
+                      (Some 0) l
+  end.
+
+Lemma fold_some (g : N -> option N) (h : N -> N) l : (forall c, In c l -> g c = Some (h c)) ->
+  fold_right (fun c acc => do a <- g c; do s <- acc; Some (a + s)) (Some 0) l =
+  Some (fold_right (fun c acc => h c + acc) 0 l).
+Proof.
+  induction l as [|x l IH]; intros H; cbn [fold_right]; [reflexivity|].
+  rewrite (H x (or_introl eq_refl)), IH by (intros c Hc; apply H; now right). reflexivity.
+Qed.
+
+Lemma sum_perm (h : N -> N) l l' : Permutation l l' ->
+  fold_right (fun c acc => h c + acc) 0 l = fold_right (fun c acc => h c + acc) 0 l'.
+Proof.
+  induction 1 as [|x l l' H IH|x y l|l l' l'' H1 IH1 H2 IH2]; cbn [fold_right]; [reflexivity|lia|lia|congruence].
+Qed.
+
+Theorem perft_exact prom_nq d : forall p, legal_pos p = true -> perft_gen prom_nq d p = Some (perft d p).
+Proof.
+  induction d as [|k IH]; intros p Hl; [reflexivity|].
+  cbn [perft_gen perft]. destruct (legal_moves_exact prom_nq p Hl) as (l & Hg & Pl & _). rewrite Hg. cbn [bind].
+  assert (Hw : wfp p) by now apply legal_wfp.
+  assert (Hdec : forall m, In m (legal p) -> decode (code m) = m).
+  { intros m Hm. apply decode_code'. apply (pseudo_valid p m Hw). unfold legal in Hm. now apply filter_In in Hm. }
+  rewrite (fold_some _ (fun c => perft k (make p (decode c)))).
+  - f_equal. rewrite (sum_perm _ _ _ Pl). clear - Hdec.
+    induction (legal p) as [|m r IHr]; cbn [map fold_right]; [reflexivity|].
+    rewrite (Hdec m (or_introl eq_refl)). f_equal. apply IHr. intros x Hx. apply Hdec. now right.
+  - intros c Hc. apply (Permutation_in _ Pl) in Hc. apply in_map_iff in Hc as [m [<- Hm]].
+    rewrite (Hdec m Hm). apply IH. now apply make_preserves_legal_pos.
+Qed.
+
 Print Assumptions legal_moves_exact.
+Print Assumptions perft_exact.
